@@ -78,3 +78,33 @@ Proof.
   f_equal. clear IH. generalize (length (r :: A)). intros k. induction A as [|r' A IH]; [reflexivity|].
   cbn [map forallb]. rewrite map_length, IH. reflexivity.
 Qed.
+
+(* ---- the central solver theorem at the executable instance ---- *)
+From NV Require Import Proofs.LinAlgSums Proofs.LinAlgR Proofs.LinAlgSolve.
+Definition rectQ (r c : nat) (m : list (list Q)) : Prop := length m = r /\ forall row, In row m -> length row = c.
+Lemma rectQ_R r c m : rectQ r c m -> rect r c (mQ2R m).
+Proof.
+  intros [H1 H2]. split; [rewrite mQ2R_length; exact H1|].
+  intros row Hin. unfold mQ2R in Hin. apply in_map_iff in Hin. destruct Hin as [x [<- Hx]]. rewrite map_length. apply H2, Hx.
+Qed.
+Lemma sumT_transfer l : sumT Rops (map Q2R l) = Q2R (sumT Qops l).
+Proof. induction l as [|x l IH]; cbn [map sumT]; [symmetry; apply Q2R_0|]. cbn [oadd Rops Qops]. rewrite Qred_R, Q2R_plus, IH. reflexivity. Qed.
+Lemma sumr_transfer a n (f : nat -> Q) : sumr Rops a n (fun i => Q2R (f i)) = Q2R (sumr Qops a n f).
+Proof. unfold sumr. rewrite <- sumT_transfer, map_map. reflexivity. Qed.
+
+Theorem lu_solve_correct_Q (A b : list (list Q)) dim : let n := length A in (0 < n)%nat -> is_square A = true -> rectQ n dim b ->
+  (forall i, (i < n)%nat -> ~ (get2 Qops (snd (doolittle Qops A)) i i == 0)%Q) ->
+  exists X, lu_solve Qops A b = Ok X /\
+    forall i c, (i < n)%nat -> (c < dim)%nat ->
+      (sumr Qops 0 n (fun k => omul Qops (get2 Qops A i k) (get2 Qops X k c)) == get2 Qops b i c)%Q.
+Proof.
+  intros n Hn Hsq Hb Hp.
+  destruct (lu_solve_correct (mQ2R A) (mQ2R b) dim) as (XR & EX & _ & HX); rewrite ?mQ2R_length; try assumption.
+  { rewrite is_square_transfer. exact Hsq. }
+  { apply rectQ_R, Hb. }
+  { apply pivots_transfer, Hp. }
+  rewrite lu_solve_transfer in EX. destruct (lu_solve Qops A b) as [X| |]; cbn [res_map] in EX; try discriminate.
+  injection EX as <-. exists X. split; [reflexivity|].
+  intros i c Hi Hc. apply eqR_Qeq. rewrite <- get2_transfer, <- sumr_transfer. rewrite mQ2R_length in HX. rewrite <- (HX i c Hi Hc).
+  apply sumr_ext. intros k _. cbn [omul Qops]. rewrite Qred_R, Q2R_mult, !get2_transfer. reflexivity.
+Qed.
